@@ -280,7 +280,13 @@ impl Family for EmitBin {
         let allow = strs(&case["allow"]);
         let (name, text) = bin_program(prog);
         std::fs::write(dir.join(&name), &text).unwrap();
-        let mut argv: Vec<String> = vec![name.clone(), "--diagnostic-format".into(), format.into()];
+        // a reference directory that also holds files that are no Slice files (they are skipped silently: nothing about
+        // them belongs on the diagnostic stream) and an unused Slice file
+        std::fs::create_dir_all(dir.join("refs/nested")).unwrap();
+        std::fs::write(dir.join("refs/README.md"), "# not Slice\n").unwrap();
+        std::fs::write(dir.join("refs/nested/old.slice.bak"), "module Old\n").unwrap();
+        std::fs::write(dir.join("refs/nested/unused.slice"), "module Unused\nstruct NotUsed {}\n").unwrap();
+        let mut argv: Vec<String> = vec![name.clone(), "-R".into(), "refs".into(), "--diagnostic-format".into(), format.into()];
         if disable {
             argv.push("--disable-color".into());
         }
@@ -301,7 +307,7 @@ impl Family for EmitBin {
         };
         let prev = std::env::current_dir().ok();
         let _ = std::env::set_current_dir(&dir);
-        let lib_options = SliceOptions { sources: vec![name.clone()], allowed_lints: allow.clone(), ..Default::default() };
+        let lib_options = SliceOptions { sources: vec![name.clone()], references: vec!["refs".to_owned()], allowed_lints: allow.clone(), ..Default::default() };
         let state = slicec::compile_from_options(&lib_options);
         let lib: Vec<Value> = state
             .into_diagnostics(&lib_options)
@@ -336,6 +342,12 @@ impl Family for EmitBin {
         } else {
             (parse_human(&plain_err), true)
         };
+        // human format: nothing precedes the first diagnostic on the diagnostic stream (JSON: every line is an object)
+        let stderr_other = if format == "json" {
+            0
+        } else {
+            plain_err.lines().take_while(|l| !(l.starts_with("error [") || l.starts_with("warning ["))).filter(|l| !l.trim().is_empty()).count()
+        };
         // summary lines on stdout: "Warnings: Compilation generated N warning(s)" / "Failed: Compilation failed with N error(s)"
         let mut sum_w: i64 = -1;
         let mut sum_e: i64 = -1;
@@ -354,7 +366,7 @@ impl Family for EmitBin {
         emit_event("emitbin", &json!({
             "ev": "emit", "prog": prog, "format": format, "disable_color": disable, "allow": allow, "gen": gen,
             "lib": lib, "records": records, "json_ok": json_ok, "escapes": esc_err + esc_out,
-            "sum_w": sum_w, "sum_e": sum_e, "stdout_other": other, "exit": exit, "timed_out": res.timed_out,
+            "sum_w": sum_w, "sum_e": sum_e, "stdout_other": other, "stderr_other": stderr_other, "exit": exit, "timed_out": res.timed_out,
         }));
         let _ = std::fs::remove_dir_all(&dir);
         Outcome { fail: None, nontrivial: prog != 1, key, rendered }
